@@ -90,6 +90,10 @@ class ModuleRef:
         self.name = name
 
 
+class SetList(list):
+    """order-preserving stand-in for a Python set (iteration order of a set of objects is arbitrary anyway)"""
+
+
 class Lambda:
     def __init__(self, node, frame):
         self.node, self.frame = node, frame
@@ -517,6 +521,28 @@ class Elab:
         raise ElabError('bridge ' + name)
 
     def native_method(self, recv, name, args, kwargs):
+        if isinstance(recv, SetList):
+            if name == 'add':
+                if not self.contains(recv, args[0]):
+                    recv.append(args[0])
+                return None
+            if name in ('discard', 'remove'):
+                for i, y in enumerate(recv):
+                    if self.eq(args[0], y):
+                        del recv[i]
+                        return None
+                if name == 'remove':
+                    raise PyExc('KeyError', 'set.remove')
+                return None
+            if name in ('update', 'union'):
+                tgt = recv if name == 'update' else SetList(recv)
+                for a in args:
+                    for x in a:
+                        if not self.contains(tgt, x):
+                            tgt.append(x)
+                return None if name == 'update' else tgt
+            if name == 'copy':
+                return SetList(recv)
         if isinstance(recv, list) and name in ('append', 'extend', 'reverse', 'copy', 'insert', 'pop', 'index', 'remove', 'count', 'clear', 'sort'):
             if name == 'sort' and kwargs:
                 raise ElabError('list.sort with key')
@@ -609,11 +635,11 @@ class Elab:
         if name == 'Exception':
             return ('exception', ' '.join(str(self.strable(a)) for a in args))
         if name in ('set', 'frozenset'):
-            out = []
+            out = SetList()
             for x in (args[0] if args else []):
                 if not any(self.eq(x, y) for y in out):
                     out.append(x)
-            return out          # order-preserving list stands in for a set (iteration order of a set of objects is arbitrary anyway)
+            return out
         if name == 'repr':
             return repr(self.strable(args[0]))
         if name == 'format':
@@ -1100,6 +1126,8 @@ class Elab:
         return out
 
     def eq(self, a, b):
+        if isinstance(a, tuple) and isinstance(b, tuple):
+            return len(a) == len(b) and all(self.eq(x, y) for x, y in zip(a, b))
         if isinstance(a, ObjV) or isinstance(b, ObjV):
             return a is b
         if isinstance(a, ClassRef) and isinstance(b, ClassRef):
